@@ -104,6 +104,18 @@ func genC02(tier, out string, sum *Summary) {
 			if !okArity && !(o.Kind == "err" && len(o.Cats) == 1 && o.Cats[0] == "CInvalidArity") {
 				sum.direct("arity", expr, nil, fmt.Sprintf("%d arguments are outside the signature (%d..%d) but the outcome is %s", k, f.min, maxA, describe(o)))
 			}
+			// surplus arguments of every form: an expression reference, a literal, a nested call, a parenthesised pipe
+			if !okArity && k > maxA && !f.vary {
+				for _, extra := range []string{"&@", "&x0", "&x0.y", "`1`", "'s'", "abs(x0)", "(x0 | x1)", "[x0]", "{k: x0}", "!x0", "&(x0 || x1)"} {
+					alt := append(append([]string{}, parts[:k-1]...), extra)
+					e2 := f.name + "(" + strings.Join(alt, ", ") + ")"
+					o2 := compileObs(e2)
+					sum.count("arity-surplus")
+					if !(o2.Kind == "err" && len(o2.Cats) == 1 && o2.Cats[0] == "CInvalidArity") {
+						sum.direct("arity", e2, nil, fmt.Sprintf("%d arguments are outside the signature (%d..%d) but the outcome is %s", k, f.min, maxA, describe(o2)))
+					}
+				}
+			}
 		}
 		// types: every JSON type at every position, other positions well-typed
 		for nargs := f.min; nargs <= maxA; nargs++ {
@@ -201,6 +213,25 @@ func genC02(tier, out string, sum *Summary) {
 		}
 		if !(o.Kind == "val" && sameValue(o.Value, c.want, false)) {
 			sum.direct("spec-example", c.expr, vr, "expected "+toJSON(c.want)+", got "+describe(o))
+		}
+	}
+	// to_number on text that is, or nearly is, a JSON number: a number exactly for the JSON number grammar
+	// (no leading zeros, no bare exponent, no surrounding blanks, none of the words other parsers accept)
+	for _, x := range numberish(tier) {
+		d := map[string]any{"s": x}
+		o := run("to_number(s)", d, false)
+		sum.count("to_number-numberish")
+		if isJSONNumberText(x) {
+			if want, ok := toDec(json.Number(x)); ok && !want.IsNaN() && !want.IsInf(0) {
+				if !(o.Kind == "val" && sameValue(o.Value, json.Number(x), false)) {
+					sum.direct("spec-example", "to_number(s)", d, "the string is a JSON number; expected its value, got "+describe(o))
+				}
+			}
+		} else if !(o.Kind == "val" && o.Value == nil) {
+			sum.direct("spec-example", "to_number(s)", d, "the string is not a JSON number; expected null, got "+describe(o))
+		}
+		if !strings.ContainsAny(x, "'\\") {
+			run("to_number('"+x+"')", nil, false)
 		}
 	}
 	// small-scope enumeration of calls: every built-in around every small operand and every small expression
@@ -598,6 +629,61 @@ func genC14(tier, out string, sum *Summary) {
 				sum.count("exact-powers")
 				if !sameObs(ref, o, false) {
 					sum.direct("kind-dependence", e, docJ, fmt.Sprintf("with a json.Number %s; with a %s (%#v) it gives %s", describe(ref), kn, v, describe(o)))
+				}
+			}
+		}
+	}
+	// integer arguments at and beyond the limits of int64, carried by every kind that can hold the value: the same
+	// outcome as for the json.Number (no call here builds anything whose size depends on the value)
+	for _, t := range []string{"9223372036854775807", "9223372036854775808", "9223372036854775809", "18446744073709551615", "-9223372036854775808", "4611686018427387904", "4294967296", "2147483648", "3", "0", "-1"} {
+		docJ := map[string]any{"a": json.Number(t), "s": "abcabc"}
+		for _, e := range []string{"find_first(s, 'c', a)", "find_first(s, 'c', `0`, a)", "find_last(s, 'c', a)", "find_last(s, 'c', `0`, a)", "find_first(s, 'c', a, a)", "split(s, 'b', a)", "replace(s, 'b', 'x', a)", "pad_left(s, a)", "pad_right(s, a, '-')", "find_last(s, 'b', `1`, a)"} {
+			if strings.HasPrefix(e, "pad_") && !(len(t) <= 2 || strings.HasPrefix(t, "-") || t == "9223372036854775808" || t == "9223372036854775809" || t == "18446744073709551615") {
+				continue // a width that is a legal size would be built
+			}
+			ref := search(e, docJ)
+			for _, k := range kindConvs {
+				if k.name == "float64" || k.name == "float32" {
+					continue
+				}
+				v, ok := k.conv(json.Number(t))
+				if !ok {
+					continue
+				}
+				o := search(e, map[string]any{"a": v, "s": "abcabc"})
+				sum.count("integer-arguments")
+				if !sameObs(ref, o, false) {
+					sum.direct("kind-dependence", e, docJ, fmt.Sprintf("with a json.Number %s; with a %s (%#v) it gives %s", describe(ref), k.name, v, describe(o)))
+				}
+			}
+		}
+	}
+	// one value, every spelling a JSON number can have (exponents without a decimal point, trailing zeros, scaled
+	// coefficients) and every kind that holds it: rounding functions and comparisons see the value, not the text
+	for _, grp := range [][]string{{"1.5", "15e-1", "150E-2", "1.50", "0.15e1", "0.015E+2"}, {"-0.5", "-5e-1", "-50e-2", "-0.50"}, {"0.25", "25e-2", "2.5e-1"}, {"1200", "12e2", "1.2e3", "1200.0", "120E1"}, {"-2.5", "-25e-1", "-250e-2"}, {"3", "3.0", "30e-1", "0.3e1", "3e0"}, {"0", "0e-3", "0.0", "-0", "0E5"}} {
+		docJ := map[string]any{"a": json.Number(grp[0])}
+		for _, e := range []string{"ceil(a)", "floor(a)", "[ceil(a), floor(a)]", "abs(a)", "- a", "a + `0`", "a * `2`", "a == `1.5`", "a < `1`", "to_number(a)", "sort([a, `1`])", "max([a, `1`])", "sum([a])", "avg([a, a])", "a // `1`", "a % `1`", "ceil(a) == floor(a)", "!a", "contains([a], a)", "type(a)", "floor(- a)", "ceil(a + a)"} {
+			ref := search(e, docJ)
+			var vals []any
+			for _, sp := range grp[1:] {
+				vals = append(vals, json.Number(sp))
+				if d, err := decimal128.Parse(sp); err == nil {
+					vals = append(vals, d)
+				}
+			}
+			for _, k := range kindConvs {
+				if v, ok := k.conv(json.Number(grp[0])); ok && k.name != "json.Number" {
+					vals = append(vals, v)
+				}
+			}
+			for _, v := range vals {
+				if _, isF := v.(float64); isF && strings.ContainsAny(e, "%") {
+					continue
+				}
+				o := search(e, map[string]any{"a": v})
+				sum.count("spellings")
+				if !sameObs(ref, o, false) && !(usesFloat(v) && floatRounding(ref, o)) {
+					sum.direct("kind-dependence", e, docJ, fmt.Sprintf("with the json.Number %s it gives %s; with %#v it gives %s", grp[0], describe(ref), v, describe(o)))
 				}
 			}
 		}
